@@ -500,41 +500,11 @@ lt_inst! {
     c08_kf_retry401_no_integrity = c08_prepare::<1, false, false, 0, 1>();
     c08_kf_retry438_no_password_algorithms = c08_prepare::<2, false, true, 0, 2>();
     // 401 challenges
-    c08_recv_401_realm_nonce = c08_recv::<1, 401, { F_REALM | F_NONCE }, 0>();
-    c08_recv_401_realm_nonce_algs = c08_recv::<1, 401, { F_REALM | F_NONCE | F_ALGS }, 0>();
-    c08_recv_401_second_challenge = c08_recv::<1, 401, { F_REALM | F_NONCE | F_ALGS }, 1>();
-    c08_recv_401_second_challenge_no_algs = c08_recv::<1, 401, { F_REALM | F_NONCE }, 2>();
-    c08_recv_401_with_sha = c08_recv::<1, 401, { F_REALM | F_NONCE | F_ALGS | F_SHA }, 2>();
-    c08_recv_401_with_mi = c08_recv::<1, 401, { F_REALM | F_NONCE | F_MI }, 1>();
-    c08_recv_401_no_realm = c08_recv::<1, 401, { F_NONCE }, 1>();
-    c08_recv_401_no_nonce = c08_recv::<1, 401, { F_REALM | F_ALGS }, 2>();
     // 438 stale nonce
-    c08_recv_438_nonce = c08_recv::<1, 438, { F_NONCE }, 1>();
-    c08_recv_438_nonce_mi = c08_recv::<1, 438, { F_NONCE | F_MI }, 1>();
-    c08_recv_438_nonce_sha = c08_recv::<1, 438, { F_NONCE | F_SHA }, 2>();
-    c08_recv_438_no_nonce = c08_recv::<1, 438, { F_MI }, 1>();
-    c08_recv_438_no_params = c08_recv::<1, 438, { F_NONCE }, 0>();
     // other errors, no code
-    c08_recv_420_mi = c08_recv::<1, 420, { F_MI }, 1>();
-    c08_recv_420_sha = c08_recv::<1, 420, { F_SHA }, 2>();
-    c08_recv_420_plain = c08_recv::<1, 420, 0, 1>();
-    c08_recv_error_no_code = c08_recv::<1, 0, { F_REALM | F_NONCE }, 1>();
     // success responses
-    c08_recv_success_mi = c08_recv::<0, 0, { F_MI }, 1>();
-    c08_recv_success_sha = c08_recv::<0, 0, { F_SHA }, 2>();
-    c08_recv_success_wrong_kind = c08_recv::<0, 0, { F_MI }, 2>();
-    c08_recv_success_both = c08_recv::<0, 0, { F_MI | F_SHA }, 1>();
-    c08_recv_success_plain = c08_recv::<0, 0, 0, 1>();
-    c08_recv_success_no_params = c08_recv::<0, 0, { F_MI }, 0>();
     // quick-tier instances: mechanism state and transport concrete (SubsequentRequest / FirstRequest, unreliable)
-    c08_recvq_401_first_challenge = c08_recv_x::<1, 401, { F_REALM | F_NONCE | F_ALGS }, 0, 0, 0>();
-    c08_recvq_401_second_challenge = c08_recv_x::<1, 401, { F_REALM | F_NONCE | F_ALGS }, 1, 3, 0>();
-    c08_recvq_438_nonce_mi = c08_recv_x::<1, 438, { F_NONCE | F_MI }, 1, 3, 0>();
-    c08_recvq_success_mi = c08_recv_x::<0, 0, { F_MI }, 1, 3, 1>();
-    c08_recvq_indication = c08_recv_x::<2, 0, { F_MI }, 1, 3, 0>();
     // indications and requests are refused
-    c08_recv_indication = c08_recv::<2, 0, { F_MI }, 1>();
-    c08_recv_request = c08_recv::<3, 0, { F_SHA }, 2>();
 }
 
 // ---- cost experiments (not registered) ------------------------------------------------------
@@ -571,4 +541,50 @@ lt_inst! {
     exp_adds_5 = exp_adds(5, false);
     exp_adds_5_removes = exp_adds(5, true);
     exp_prepare_concrete_state = exp_prepare_concrete();
+}
+
+// concrete instances with a tight per-instance unwind bound (number of attributes + 2): the attribute
+// loops of process_error_response / the protected iterator are entered on many paths and each entry is
+// unwound to the bound
+macro_rules! lt_inst_u {
+    ($($name:ident = $u:expr, $e:expr;)*) => {$(
+        #[kani::proof]
+        #[kani::unwind($u)]
+        #[kani::stub(alloc::fmt::format, nofmt)]
+        fn $name() { $e; }
+    )*};
+}
+lt_inst_u! {
+    c08_recvq_401_first_challenge = 6, c08_recv_x::<1, 401, { F_REALM | F_NONCE | F_ALGS }, 0, 0, 0>();
+    c08_recvq_401_second_challenge = 6, c08_recv_x::<1, 401, { F_REALM | F_NONCE | F_ALGS }, 1, 3, 0>();
+    c08_recvq_438_nonce_mi = 5, c08_recv_x::<1, 438, { F_NONCE | F_MI }, 1, 3, 0>();
+    c08_recvq_success_mi = 5, c08_recv_x::<0, 0, { F_MI }, 1, 3, 1>();
+    c08_recvq_indication = 5, c08_recv_x::<2, 0, { F_MI }, 1, 3, 0>();
+}
+lt_inst_u! {
+    c08_recv_401_realm_nonce = 5, c08_recv::<1, 401, { F_REALM | F_NONCE }, 0>();
+    c08_recv_401_realm_nonce_algs = 6, c08_recv::<1, 401, { F_REALM | F_NONCE | F_ALGS }, 0>();
+    c08_recv_401_second_challenge = 6, c08_recv::<1, 401, { F_REALM | F_NONCE | F_ALGS }, 1>();
+    c08_recv_401_second_challenge_no_algs = 5, c08_recv::<1, 401, { F_REALM | F_NONCE }, 2>();
+    c08_recv_401_with_sha = 7, c08_recv::<1, 401, { F_REALM | F_NONCE | F_ALGS | F_SHA }, 2>();
+    c08_recv_401_with_mi = 6, c08_recv::<1, 401, { F_REALM | F_NONCE | F_MI }, 1>();
+    c08_recv_401_no_realm = 5, c08_recv::<1, 401, { F_NONCE }, 1>();
+    c08_recv_401_no_nonce = 5, c08_recv::<1, 401, { F_REALM | F_ALGS }, 2>();
+    c08_recv_438_nonce = 5, c08_recv::<1, 438, { F_NONCE }, 1>();
+    c08_recv_438_nonce_mi = 5, c08_recv::<1, 438, { F_NONCE | F_MI }, 1>();
+    c08_recv_438_nonce_sha = 5, c08_recv::<1, 438, { F_NONCE | F_SHA }, 2>();
+    c08_recv_438_no_nonce = 5, c08_recv::<1, 438, { F_MI }, 1>();
+    c08_recv_438_no_params = 5, c08_recv::<1, 438, { F_NONCE }, 0>();
+    c08_recv_420_mi = 5, c08_recv::<1, 420, { F_MI }, 1>();
+    c08_recv_420_sha = 5, c08_recv::<1, 420, { F_SHA }, 2>();
+    c08_recv_420_plain = 5, c08_recv::<1, 420, 0, 1>();
+    c08_recv_error_no_code = 5, c08_recv::<1, 0, { F_REALM | F_NONCE }, 1>();
+    c08_recv_success_mi = 5, c08_recv::<0, 0, { F_MI }, 1>();
+    c08_recv_success_sha = 5, c08_recv::<0, 0, { F_SHA }, 2>();
+    c08_recv_success_wrong_kind = 5, c08_recv::<0, 0, { F_MI }, 2>();
+    c08_recv_success_both = 5, c08_recv::<0, 0, { F_MI | F_SHA }, 1>();
+    c08_recv_success_plain = 5, c08_recv::<0, 0, 0, 1>();
+    c08_recv_success_no_params = 5, c08_recv::<0, 0, { F_MI }, 0>();
+    c08_recv_indication = 5, c08_recv::<2, 0, { F_MI }, 1>();
+    c08_recv_request = 5, c08_recv::<3, 0, { F_SHA }, 2>();
 }
